@@ -136,8 +136,109 @@ def runWsBuf (keeps : Bool) (size : Nat) : WsBuf → List Nat → List String
       | (.eof, _) => ["eof"]
       | (.err, _) => ["err"]
 
+/-! ### server side of a new logical stream: `clientFirstConn` (communicator.go)
+
+  Reads go through a bufio.Reader of `Gen.bufferSize`; the first `Write` first `Peek(1)`s, i.e. waits
+  until the client's first bytes are buffered (or the stream has ended, in which case the write fails). -/
+
+structure CF where
+  rd : Buf
+  peeked : Bool
+  peekOk : Bool
+  deriving Repr
+
+/-- bufio.Reader.Peek(1): fill the buffer with one underlying read when it is empty; nothing is consumed -/
+def peek1 (size : Nat) (b : Buf) : Bool × Buf :=
+  if b.buf ≠ [] then (true, b)
+  else
+    let r := srcRead b.src size
+    (r.1 ≠ [], { buf := r.1, src := r.2 })
+
+def cfRead (size : Nat) (c : CF) (n : Nat) : List Nat × CF :=
+  let r := bufRead size c.rd n
+  (r.1, { c with rd := r.2 })
+
+/-- `Write(p)`: true = handed to the underlying stream, false = refused with the Peek's error -/
+def cfWrite (size : Nat) (c : CF) : Bool × CF :=
+  if c.peeked then (c.peekOk, c)
+  else
+    let r := peek1 size c.rd
+    (r.1, { rd := r.2, peeked := true, peekOk := r.1 })
+
+/-! ### client/server wrapper of a multiplexed stream: `MuxStreamConnection.Read` (muxstream_connection.go)
+
+  The underlying stream may answer end-of-stream although data is still buffered (smux 1.5.14: data-arrived and
+  peer-finished are both ready, the select picks the latter); it hands the data over on the next call.  The model of
+  the underlying stream is a script of what successive `Read` calls return. -/
+
+inductive RawRead
+  | data (bs : List Nat)
+  | eof                     -- (0, io.EOF)
+  | err
+  deriving Repr, DecidableEq
+
+/-- one `Read` of the wrapper over a script of underlying results: an `eof` is retried once -/
+def muxRead : List RawRead → RawRead × List RawRead
+  | [] => (.eof, [])
+  | .eof :: rest =>
+      match rest with
+      | [] => (.eof, [])
+      | r :: rest' => (r, rest')
+  | r :: rest => (r, rest)
+
+/-- reads until the wrapper reports end-of-stream or an error; the data handed to the caller -/
+def muxDrain : Nat → List RawRead → List Nat
+  | 0, _ => []
+  | fuel + 1, s =>
+      match muxRead s with
+      | (.data bs, rest) => bs ++ muxDrain fuel rest
+      | _ => []
+
+/-- all data in a script up to its first genuine end: an `eof` directly followed by data is spurious -/
+def scriptData : List RawRead → List Nat
+  | [] => []
+  | .data bs :: rest => bs ++ scriptData rest
+  | .eof :: .data bs :: rest => bs ++ scriptData rest
+  | _ => []
+
+def runCF (size : Nat) : CF → List String → List String
+  | _, [] => []
+  | c, op :: ops =>
+      match op.toList with
+      | 'r' :: n =>
+          match (String.ofList n).toNat? with
+          | some k =>
+              let r := cfRead size c k
+              if r.1 = [] then ["eof"] else toString r.1.length :: runCF size r.2 ops
+          | none => ["bad"]
+      | ['w'] =>
+          let r := cfWrite size c
+          (if r.1 then "w" else "wfail") :: runCF size r.2 ops
+      | _ => ["bad"]
+
+def parseRaw (t : String) : Option RawRead :=
+  if t = "e" then some .eof else if t = "x" then some .err
+  else t.toNat?.map (fun n => .data (List.replicate n 0))
+
+def runMux : Nat → List RawRead → List String
+  | 0, _ => []
+  | fuel + 1, s =>
+      match muxRead s with
+      | (.data bs, rest) => toString bs.length :: runMux fuel rest
+      | (.eof, _) => ["eof"]
+      | (.err, _) => ["err"]
+
 def handle (toks : List String) : String :=
   match toks with
+  | ["cf", chunks, "|", ops] =>
+      match parseNats chunks with
+      | some cs => " ".intercalate (runCF Gen.bufferSize
+          { rd := { buf := [], src := mkChunks 0 cs }, peeked := false, peekOk := false } (ops.splitOn ","))
+      | none => "bad-op"
+  | ["mux", script] =>
+      match (script.splitOn ",").mapM parseRaw with
+      | some sc => " ".intercalate (runMux (sc.length + 2) sc)
+      | none => "bad-op"
   | ["bufio", chunks, "|", reads] =>
       match parseNats chunks, parseNats reads with
       | some cs, some rs =>
